@@ -11,6 +11,7 @@
 -/
 import Y0.Lemmas.Closure
 import Y0.Lemmas.Moral
+import Y0.Lemmas.Topo
 
 namespace Y0.MG
 variable {α : Type} [DecidableEq α]
@@ -567,6 +568,115 @@ theorem biEdge_moralize (G : MG α) (hG : G.WF) (u v : α) (huv : u ≠ v) :
     · exact Or.inl h
     · exact Or.inr (moralLinks_complete G u v c (hG.di_mem _ hu).2 hu hv huv)
 
+
+/-! ## 13. topological sort: networkx's generation-wise Kahn algorithm returns a linear extension
+exactly when the directed part is acyclic, and `NetworkXUnfeasible` otherwise -/
+
+/-- whatever `topological_sort` returns lists every node once with every directed edge going forward -/
+theorem topologicalSort_spec (G : MG α) (hG : G.WF) (l : List α) (h : G.topologicalSort = .ok l) :
+    G.IsTopoOrder l :=
+  topoLoop_ok G hG _ _ _ _ l (topoInv_init G hG) h
+
+/-- on an acyclic graph `topological_sort` returns (the fuel of the model is never exhausted) -/
+theorem topologicalSort_total (G : MG α) (hG : G.WF) (hA : G.Acyclic) :
+    ∃ l, G.topologicalSort = .ok l :=
+  topoLoop_total G hG hA _ _ _ _ (topoInv_init G hG) (by simp)
+
+/-- on a graph with a directed cycle (self-loops included) it raises `NetworkXUnfeasible` -/
+theorem topologicalSort_cyclic (G : MG α) (hG : G.WF) (hA : ¬ G.Acyclic) :
+    G.topologicalSort = .error (.internal "NetworkXUnfeasible") := by
+  cases h : G.topologicalSort with
+  | ok l => exact absurd (acyclic_of_isTopoOrder G hG.nodup l (topologicalSort_spec G hG l h)) hA
+  | error e => rw [topoLoop_error G _ _ _ _ e h]
+
+/-- `nx.is_directed_acyclic_graph` of the model decides acyclicity -/
+theorem isAcyclic_iff (G : MG α) (hG : G.WF) : G.isAcyclic = true ↔ G.Acyclic := by
+  unfold isAcyclic
+  constructor
+  · intro h
+    cases hs : G.topologicalSort with
+    | ok l => exact acyclic_of_isTopoOrder G hG.nodup l (topologicalSort_spec G hG l hs)
+    | error e => rw [hs] at h; cases h
+  · intro hA
+    obtain ⟨l, hl⟩ := topologicalSort_total G hG hA
+    rw [hl]
+
+private theorem acyclic_congr (G H : MG α) (hd : ∀ u v, G.DiEdge u v ↔ H.DiEdge u v) :
+    G.Acyclic ↔ H.Acyclic := by
+  have : G.DiEdge = H.DiEdge := by funext u v; exact propext (hd u v)
+  simp [Acyclic, this]
+
+/-- insertion-order clause for `topological_sort`: the order computed from ANY construction `H` of the same
+graph (`H == G`) is a valid linear extension of `G` -/
+theorem topologicalSort_any_insertion_order (G H : MG α) (hG : G.WF) (hH : H.WF) (h : G.equiv H = true)
+    (l : List α) (hl : H.topologicalSort = .ok l) : G.IsTopoOrder l := by
+  rw [equiv_iff] at h
+  obtain ⟨hp, ho⟩ := topologicalSort_spec H hH l hl
+  refine ⟨hp.trans ?_, fun u v huv => ho u v ((h.2.1 u v).1 huv)⟩
+  rw [List.perm_ext_iff_of_nodup hH.nodup hG.nodup]
+  exact fun v => (h.1 v).symm
+
+/-- … and whether it succeeds does not depend on the insertion order either -/
+theorem equiv_congr_topologicalSort_ok (G H : MG α) (hG : G.WF) (hH : H.WF) (h : G.equiv H = true) :
+    (∃ l, G.topologicalSort = .ok l) ↔ (∃ l, H.topologicalSort = .ok l) := by
+  rw [equiv_iff] at h
+  have hA := acyclic_congr G H h.2.1
+  constructor
+  · rintro ⟨l, hl⟩
+    exact topologicalSort_total H hH
+      (hA.1 (acyclic_of_isTopoOrder G hG.nodup l (topologicalSort_spec G hG l hl)))
+  · rintro ⟨l, hl⟩
+    exact topologicalSort_total G hG
+      (hA.2 (acyclic_of_isTopoOrder H hH.nodup l (topologicalSort_spec H hH l hl)))
+
+/-! ## 14. `pre` with the default order: the nodes strictly before the first member of `S` in the
+topological order of the graph -/
+
+/-- `pre(S)` and `pre(S, [])` (an empty order is falsy in Python) use `topological_sort()`;
+the result is the prefix of that order that stops at the first member of `S` -/
+theorem pre_spec (G : MG α) (hG : G.WF) (S P : List α) (o : Option (List α)) (ho : o = none ∨ o = some [])
+    (h : G.pre S o = .ok P) :
+    ∃ l rest, G.topologicalSort = .ok l ∧ G.IsTopoOrder l ∧ l = P ++ rest ∧ (∀ x ∈ P, x ∉ S) ∧
+      (∀ y, rest.head? = some y → y ∈ S) ∧
+      (∀ v, v ∈ P ↔ v ∈ G.nodes ∧ ∀ s ∈ S, s ∈ G.nodes → l.idxOf v < l.idxOf s) := by
+  have hpre : G.pre S o = (do let o ← G.topologicalSort; pure (preOf o S)) := by
+    rcases ho with rfl | rfl <;> rfl
+  rw [hpre] at h
+  cases hs : G.topologicalSort with
+  | error e => rw [hs] at h; cases h
+  | ok l =>
+    rw [hs] at h
+    simp only [bind, Except.bind, pure, Except.pure, Except.ok.injEq] at h
+    subst h
+    have hl := topologicalSort_spec G hG l hs
+    refine ⟨l, l.dropWhile (· ∉ S), rfl, hl, (preOf_prefix l S).symm, preOf_avoids l S,
+      fun y hy => preOf_stops l S y hy, fun v => ?_⟩
+    rw [mem_preOf_iff]
+    have hmem : ∀ x, x ∈ l ↔ x ∈ G.nodes := fun x => hl.1.mem_iff
+    simp only [hmem]
+
+/-- `pre` fails only when the graph is cyclic (and no explicit order is given) -/
+theorem pre_total (G : MG α) (hG : G.WF) (hA : G.Acyclic) (S : List α) (o : Option (List α)) :
+    ∃ P, G.pre S o = .ok P := by
+  obtain ⟨l, hl⟩ := topologicalSort_total G hG hA
+  rcases o with _ | ⟨_ | ⟨a, os⟩⟩
+  · exact ⟨preOf l S, by simp [pre, hl, bind, Except.bind, pure, Except.pure]⟩
+  · exact ⟨preOf l S, by simp [pre, hl, bind, Except.bind, pure, Except.pure]⟩
+  · exact ⟨_, rfl⟩
+
+/-- the default `pre` is closed under parents (a prefix of a topological order is ancestral) -/
+theorem pre_ancestral (G : MG α) (hG : G.WF) (S P : List α) (h : G.pre S none = .ok P) (u v : α)
+    (huv : G.DiEdge u v) (hv : v ∈ P) : u ∈ P := by
+  obtain ⟨l, rest, _, hl, e, _⟩ := pre_spec G hG S P none (Or.inl rfl) h
+  exact prefix_ancestral G hG.nodup l P rest hl e u v huv hv
+
+/-- `pre` with an explicit non-empty order never consults the graph: it is the prefix of that order before
+the first member of `S` -/
+theorem pre_explicit_spec (G : MG α) (S : List α) (a : α) (os : List α) :
+    G.pre S (some (a :: os)) = .ok (preOf (a :: os) S) ∧
+    ∀ v, v ∈ preOf (a :: os) S ↔
+      v ∈ a :: os ∧ ∀ s ∈ S, s ∈ a :: os → (a :: os).idxOf v < (a :: os).idxOf s :=
+  ⟨rfl, fun v => mem_preOf_iff (a :: os) S v⟩
 
 /-! ## non-vacuity: a 5-node graph with an isolated node (4) and a node touched only by a
 bidirected edge (3) satisfies `WF`, and the operations return what the theorems say -/
